@@ -5,9 +5,21 @@ use crate::{
     reference::znx::{
         ZnxCopy, ZnxNormalizeFinalStep, ZnxNormalizeFinalStepAssign, ZnxNormalizeFinalStepSub, ZnxNormalizeFirstStep,
         ZnxNormalizeFirstStepAssign, ZnxNormalizeFirstStepCarryOnly, ZnxNormalizeMiddleStep, ZnxNormalizeMiddleStepAssign,
-        ZnxNormalizeMiddleStepCarryOnly, ZnxNormalizeMiddleStepSub, ZnxZero,
+        ZnxNormalizeMiddleStepCarryOnly, ZnxNormalizeMiddleStepSub, ZnxZero, get_carry_i64, get_digit_i64,
     },
 };
+
+/// Moves `carry` up through `limbs` limbs that hold no data (limbs that fall strictly below the last limb of
+/// the result when the shift exceeds its precision): each one divides the carry by 2^base2k (rounded).
+#[inline(always)]
+fn carry_skip_empty_limbs(base2k: usize, limbs: usize, carry: &mut [i64]) {
+    for _ in 0..limbs {
+        carry.iter_mut().for_each(|c| {
+            let digit: i64 = get_digit_i64(base2k, *c);
+            *c = get_carry_i64(base2k, *c, digit);
+        });
+    }
+}
 
 pub fn vec_znx_lsh_tmp_bytes(n: usize) -> usize {
     n * size_of::<i64>()
@@ -232,6 +244,9 @@ where
         ZNXARI::znx_zero(carry);
     }
 
+    // Shift larger than the precision of res: the carry first crosses the limbs below the last one of res
+    carry_skip_empty_limbs(base2k, steps.saturating_sub(size), carry);
+
     // Continues with shifted normalization
     for j in 0..size - res_end {
         ZNXARI::znx_copy(tmp, res.at(res_col, size - res_end - j - 1));
@@ -307,6 +322,9 @@ pub fn vec_znx_rsh<R, A, ZNXARI, const OVERWRITE: bool>(
     if a_out_range == 0 {
         ZNXARI::znx_zero(carry);
     }
+
+    // Shift larger than the precision of res: the carry first crosses the limbs below the last one of res
+    carry_skip_empty_limbs(base2k, steps.saturating_sub(res_size), carry);
 
     if OVERWRITE {
         // Zeroes lower limbs of res if a_size + steps < res_size
@@ -393,6 +411,9 @@ where
     if a_out_range == 0 {
         ZNXARI::znx_zero(carry);
     }
+
+    // Shift larger than the precision of res: the carry first crosses the limbs below the last one of res
+    carry_skip_empty_limbs(base2k, steps.saturating_sub(res_size), carry);
 
     let mid_range: usize = res_start.saturating_sub(res_end);
 
